@@ -16,7 +16,8 @@ Arguments Err {A} e.
 Definition bind {A B} (r : result A) (f : A -> result B) : result B :=
   match r with Ok a => f a | Err e => Err e end.
 Notation "'do' x <- r ; k" := (bind r (fun x => k))
-  (at level 200, x pattern, r at level 100, k at level 200, right associativity).
+  (at level 200, x name, r at level 100, k at level 200, right associativity).
+Notation "r ;; k" := (bind r (fun _ => k)) (at level 100, k at level 200, right associativity).
 
 Definition exn_eqb (a b : exn) : bool :=
   match a, b with
